@@ -5,10 +5,26 @@
    PVirtualFile.invoke = one `try: ... except: print` block of assembler.py / one conversion block of
    file_util.py over the host file system (PVirtualFile.asm_step_invoke, conv_step_invoke).
    PARTIAL in one respect, stated here once: "the existing content is an image of the kind being
-   written" is what the TOOL's readers say (MVirtualFile.sniff_kind), not the format specification;
-   the two differ on (a) bytes the cassette reader lists as zero files (any content without a
-   $55 $3C $00 header is "a cassette") and (b) a tape of >= 161,280 bytes the disk reader accepts
-   (known finding tape_sniffed_as_disk).  The harness judges the old content with the spec parsers.
+   written" is what the TOOL's readers say (MVirtualFile.sniff_kind), not the format specification.
+   After the repair of get_coco_files (content in which the tape reader finds no file is a cassette
+   only when it is empty) the two are related as follows, each direction proved below:
+     * refused for sure (C10_no_tape_header_refused, C10_short_content_never_disk): non-empty content
+       shorter than a disk image without any tape name-file header $55 $3C $00 — text, machine code,
+       arbitrary bytes — is never written by --to_cas / --to_dsk, with or without --append; content
+       shorter (or longer) than 161,280 bytes is never taken for a disk;
+     * necessary for a write (C10_cassette_write_needs_tape_file, C10_disk_write_needs_disk_image): the
+       old content is empty or the tape reader finds at least one complete file in it; resp. it has
+       exactly 161,280 bytes and the disk reader lists it without error;
+     * sufficient (C10_wellformed_tape_is_recognised): every well-formed tape stream (any leader / gap
+       lengths, any 1..255 chunking) with at least one file, no empty-data file, below 161,280 bytes is
+       read as a CASSETTE, so --to_cas --append onto it proceeds.
+   What still differs from the specification: (a) the tape reader verifies no checksum and skips
+   garbage between blocks, so a damaged stream in which it still finds a file counts as a cassette;
+   (b) known finding tape_empty_file: a tape whose only files have empty data lists as [] and is now
+   BINARY (append refused — the safe direction), and an empty-data file in the middle truncates the
+   listing, so an append rewrites the tape without the later files (C09's business); (c) known finding
+   tape_sniffed_as_disk: a tape of >= 161,280 bytes is shown to the disk reader first (Unmodelled in
+   MDisk.list_files above that size).  The harness judges the old content with the spec parsers.
    That write_binary_contents is reached only on the written path and writes the whole buffer is
    observed by the harness, not proved. *)
 From V Require Import Base.
@@ -38,6 +54,43 @@ Theorem C10_other_kind_refused :
     exists e, classify (store req append (Some o) new) = inr e.
 Proof. exact store_other_kind_refused. Qed.
 Print Assumptions C10_other_kind_refused.
+
+(* (1'') the tool's reading, made explicit *)
+Theorem C10_cassette_write_needs_tape_file :
+  forall append o new img,
+    store KCas append (Some o) new = Ok (Some img) ->
+    append = true /\ (o = [] \/ exists cs, MCassette.list_files o = Ok cs /\ cs <> []).
+Proof. exact store_cassette_needs_tape_file. Qed.
+Print Assumptions C10_cassette_write_needs_tape_file.
+
+Theorem C10_disk_write_needs_disk_image :
+  forall append (o : list byte) new img,
+    store KDsk append (Some o) new = Ok (Some img) ->
+    append = true /\ N.of_nat (length o) = IMAGE_SIZE /\ exists ds, MDisk.list_files o = Ok ds.
+Proof. exact store_disk_needs_disk_image. Qed.
+Print Assumptions C10_disk_write_needs_disk_image.
+
+(* the repaired defect: non-empty content below the size of a disk image that holds no tape name-file
+   header anywhere is refused by --to_cas and --to_dsk whatever the append flag *)
+Theorem C10_no_tape_header_refused :
+  forall req append (o : list byte) new,
+    req <> KBin -> o <> [] -> N.of_nat (length o) < IMAGE_SIZE -> seek [85; 60; 0] o = None ->
+    exists e, classify (store req append (Some o) new) = inr e.
+Proof. exact store_no_header_refused. Qed.
+Print Assumptions C10_no_tape_header_refused.
+
+Theorem C10_short_content_never_disk :
+  forall append (o : list byte) new,
+    N.of_nat (length o) < IMAGE_SIZE -> exists e, classify (store KDsk append (Some o) new) = inr e.
+Proof. exact store_short_never_disk. Qed.
+Print Assumptions C10_short_content_never_disk.
+
+Theorem C10_wellformed_tape_is_recognised :
+  forall (o : list byte) cs,
+    wf_stream o cs -> cs <> [] -> Forall (fun c => c_data c <> []) cs -> N.of_nat (length o) < IMAGE_SIZE ->
+    sniff o = Ok (map of_cfile cs, KCas).
+Proof. exact sniff_wellformed_stream. Qed.
+Print Assumptions C10_wellformed_tape_is_recognised.
 
 (* (2)+(3) one CLI save step: EITHER refused — the file system afterwards is the very same function
    and the output is one "Unable to save ... file:" event carrying the diagnostic — OR written —
@@ -84,7 +137,8 @@ Print Assumptions C10_assembler_protects_existing_files.
 
 (* non-vacuity: a target holding one tape file.  Without append: refused (FileExistsError = Diag 21);
    --to_dsk with append: refused (type mismatch = Diag 20); --to_cas with append: written, and the
-   new tape holds the old file then the new one. *)
+   new tape holds the old file then the new one.  A target holding the text "hello": --to_cas --append
+   is refused (not a cassette any more), --to_bin --append replaces it; an EMPTY file is a cassette. *)
 Example C10_nonvacuous :
   let a := {| f_name := [65]; f_ext := []; f_type := 2; f_dtype := 0; f_load := 3584; f_exec := 3584; f_data := [1;2;3] |} in
   let b := {| f_name := [104;105]; f_ext := ext_bin; f_type := 2; f_dtype := 0; f_load := 16; f_exec := 16; f_data := [57] |} in
@@ -92,6 +146,8 @@ Example C10_nonvacuous :
   store KCas false (Some old) [b] = Diag 21 /\
   store KDsk true (Some old) [b] = Diag 20 /\
   store KCas true (Some old) [b] = Ok (Some (MCassette.write [to_cfile a; to_cfile b])) /\
-  store KBin true (Some [104;101;108;108;111]) [b] = Diag 20 /\
+  store KCas true (Some [104;101;108;108;111]) [b] = Diag 20 /\
+  store KBin true (Some [104;101;108;108;111]) [b] = Ok (Some [57]) /\
+  store KCas true (Some []) [b] = Ok (Some (MCassette.write [to_cfile b])) /\
   store KBin false None [b] = Ok (Some [57]).
 Proof. vm_compute. repeat split; reflexivity. Qed.
